@@ -50,6 +50,25 @@ Theorem C20_escape_set_is_punctuation :
   forall n, In n WZ.Gen.MdTables.md_escape_set -> (33 <= n <= 47 \/ 58 <= n <= 64 \/ 91 <= n <= 96 \/ 123 <= n <= 126).
 Proof. exact escape_set_is_punctuation. Qed.
 Print Assumptions C20_escape_set_is_punctuation.
+(* a paragraph, quote or item text passed through escapeBlockStart does not begin like a list item ("-", "+", digits
+   and "." or ")"), a block quote (">") or a setext underline ("=", "-") - for every text *)
+Theorem C20_escape_block_start_safe : forall cs, block_start (escape_block_start cs) = false.
+Proof. exact escape_block_start_safe. Qed.
+Print Assumptions C20_escape_block_start_safe.
+(* a wrapped paragraph is its lines (wrap_groups: the words of wrapWords filled up to the width), each passed through
+   escapeBlockStart, joined by line breaks: no line of it begins like a list item, a quote or an underline, whatever
+   words the wrapping happens to put first *)
+Theorem C20_wrapped_lines_safe :
+  forall cs max,
+    let lines := map escape_block_start (wrap_groups (wrap_words cs [] 0 0 false) [] max) in
+    wrap_lines (wrap_words cs [] 0 0 false) [] max = join_lines lines /\
+    Forall (fun l => block_start l = false) lines.
+Proof.
+  intros cs max lines. split.
+  - apply wrap_lines_groups. apply wrap_words_nonempty.
+  - apply wrapped_lines_safe.
+Qed.
+Print Assumptions C20_wrapped_lines_safe.
 Theorem C20_trim_decompose :
   forall p cs, existsb (fun c => negb (p c)) cs = true ->
   take_while p cs ++ trim_with p cs ++ rev (take_while p (rev cs)) = cs.
